@@ -40,6 +40,18 @@ std::string prop_generate(Tape & t, int size) {
     int64_t total = need + t.range(0, need / 2 + 30);
     if (total > cap) total = cap;
     if (total < 1) total = 1;
+    // one case in sixty (costly: > 1 M samples): a level-1 SUMMARY chunk beyond the reader's initial 1 MiB chunk buffer
+    // (entries_per_summary > 65 536, enough samples to fill it).  A request served from level 2 whose first window is unaligned makes the
+    // reader descend to level 1 for the edge, which has to grow the buffer the level-2 entries are being read from.
+    bool bigsummary = size >= 30 && t.chance(1, 60);
+    if (bigsummary) {
+        dt = dtype_by_name(t.pick(std::vector<std::string>{"u8", "i8", "u4", "f32", "i16"}).c_str());
+        def = gen_signal(t, 1, 1, *dt, 0);
+        def.spd = (uint32_t) t.pick(std::vector<int64_t>{64, 128, 512}); def.sdf = 16; def.eps = (uint32_t) t.pick(std::vector<int64_t>{66000, 70000, 80000}); def.sumdf = 10;
+        sd = predict_stored(def, *dt);
+        p.ops.back() = def;
+        total = (int64_t) sd.sdf * (65600 + t.range(0, 4000)) + t.range(0, 300);
+    }
     Pattern pat = gen_pattern(t, *dt, {"random", "random", "ramp", "const", "alt", "extremes", "small", "offset", "offset", "blocks"}, sd.spd);
     if (dt->kind == 'f' && pat.kind == "extremes" && dt->bits == 32) pat.kind = "random";
     std::vector<uint32_t> parts = gen_partition(t, total, sd.spd, 12);
@@ -56,6 +68,7 @@ std::string prop_generate(Tape & t, int size) {
         r.set("sa", (long long) t.weighted({2, 3, 2, 2, 2}));                        // start anchor: 0, entry-aligned, block-aligned, summary-chunk aligned, so that it ends at the last sample
         r.set("sk", (long long) t.range(0, 200));
         r.set("sd", (long long) t.pick(std::vector<int64_t>{0, 0, 1, -1, 3, -3}));
+        if (bigsummary && k < 6) { r.set("lvl", (long long) 2); r.set("im", (long long) 1000); r.set("cnt", (long long) t.pick(std::vector<int64_t>{25, 26, 30})); r.set("sd", (long long) t.pick(std::vector<int64_t>{3, -3, 1})); }
         reqs.push(r);
     }
     // one case in six leaves the writer unclosed: the reader repairs the file on open and rebuilds the upper summary levels itself
